@@ -5,6 +5,7 @@ ROOT = os.path.dirname(os.path.dirname(os.path.abspath(__file__)))
 rows = []
 # results that seed_eval.py (which runs only the seed's own property) cannot produce
 OVERRIDE = {
+    'S-C06-p': 'C05 quick (not C06: an unlocked process-wide map in the lexer that only goes wrong - a fatal "concurrent map writes" - when two goroutines compile at once; C06 does not quantify over schedules, C05 does)',
     'S-C11-o': 'C05 quick (not C11: a process-wide hasher that only goes wrong when two goroutines evaluate at once - a violation of C05, which is where it is caught; C11 does not quantify over schedules)',
     'S-C14-d': 'C04 quick and C05 quick (not C14: inside the fragment C14 claims the name functions still answer right)',
     'S-C06-a': 'C06 quick on the tree it was written for (before fix R30, 82179e3). On the repaired tree the change no longer breaks C06: the builder\'s node limit introduced by R30 turns its exponential blow-up into a prompt "too complex" error, so Compile terminates; the check is rightly silent',
